@@ -284,6 +284,8 @@ def coq_eval_mismatches(name, header, case_terms, check_fn, shard_size=400, time
     # the number of shards is what consecutive slicing would give; terms are dealt to the shards by size (largest first, to
     # the lightest shard) because evaluation time follows the size of the term: index_of[k][j] is the global index
     nsh = max(1, (len(case_terms) + shard_size - 1) // shard_size)
+    # a shard is one coqc process: bound its input (about 3 MB of terms) so that 16 of them in parallel stay far from the memory limit
+    nsh = max(nsh, (sum(len(t) for t in case_terms) + 2999999) // 3000000)
     index_of = [[] for _ in range(nsh)]
     load = [0] * nsh
     import heapq
